@@ -230,10 +230,10 @@ def ltx_mutations(rng, tx, every_offset=False, budget=30):
 IN_KEYS = {  # field -> (key, int length or None)
     "value": (ELEMENTS + b"\x00", 8), "vbf": (ELEMENTS + b"\x01", None), "asset": (ELEMENTS + b"\x02", None),
     "abf": (ELEMENTS + b"\x03", None), "range_proof": (PSET + b"\x0e", None), "issue_value": (PSET + b"\x00", 8),
-    "issue_commitment": (PSET + b"\x01", None), "issue_rangeproof": (PSET + b"\x02", None),
+    "issue_commitment": (PSET + b"\x01", "commit"), "issue_rangeproof": (PSET + b"\x02", None),
     "token_rangeproof": (PSET + b"\x03", None), "issue_proof": (PSET + b"\x0f", None),
-    "token_value": (PSET + b"\x0a", 8), "token_commitment": (PSET + b"\x0b", None),
-    "issue_nonce": (PSET + b"\x0c", None), "issue_entropy": (PSET + b"\x0d", None), "token_proof": (PSET + b"\x10", None),
+    "token_value": (PSET + b"\x0a", 8), "token_commitment": (PSET + b"\x0b", "commit"),
+    "issue_nonce": (PSET + b"\x0c", "raw32"), "issue_entropy": (PSET + b"\x0d", "raw32"), "token_proof": (PSET + b"\x10", None),
 }
 OUT_KEYS = {  # field -> (v2 key, legacy key or None, int length)
     "asset": (PSET + b"\x02", None, None), "value_commitment": (PSET + b"\x01", ELEMENTS + b"\x00", None),
@@ -259,7 +259,28 @@ def canon_out_key(k, version):
     return k2 if (version == 2 or k0 is None) else k0
 
 
+def malformed_issuance_value(k, v):
+    """the region of finding C18-KF1 (fixed by fixes/c18-kf1.diff): an input-scope commitment (`pset 01` / `pset 0b`) that
+    is not 33 bytes with prefix 08 / 09, a nonce / entropy (`pset 0c` / `pset 0d`) that is not 32 bytes"""
+    if k in (PSET + b"\x01", PSET + b"\x0b"):
+        return len(v) != 33 or v[0] not in (8, 9)
+    if k in (PSET + b"\x0c", PSET + b"\x0d"):
+        return len(v) != 32
+    return False
+
+
 def field_value(rng, ln):
+    if ln == "commit":  # since fix c18-kf1: 33 bytes, prefix 08 / 09; anything else must be refused
+        r = rng.random()
+        if r < 0.85:
+            return bytes([rng.choice([8, 9])]) + rbytes(rng, 32)
+        if r < 0.92:
+            return bytes([rng.choice([0, 1, 2, 3, 7, 0x0a, 0x0b, 0xff])]) + rbytes(rng, 32)
+        return rbytes(rng, rng.choice([0, 1, 4, 32, 34, 67]))
+    if ln == "raw32":  # since fix c18-kf1: 32 bytes; anything else must be refused
+        if rng.random() < 0.85:
+            return rng.choice([b"\x00" * 32, rbytes(rng, 32)])
+        return rbytes(rng, rng.choice([0, 1, 31, 33, 67]))
     if ln is not None:
         r = rng.random()
         if r < 0.85:
